@@ -698,3 +698,154 @@ def b_badinput(job):
     return _result(fam, job, mon=False)
 
 BUILDERS.update({"pipe": b_pipe, "rerun": b_rerun, "outlogic": b_outlogic, "badinput": b_badinput})
+
+# ------------------------------------------------------------------ integer rounding (C27)
+def b_rounding(job):
+    """LIA / IDL scripts whose answers hinge on integer rounding: div/mod by constants of either sign, strict bounds,
+    non-unit coefficients (gcd normalisation), negated difference constraints; all variables boxed so that the
+    kernel's exhaustive grid decides every check-sat."""
+    rng = random.Random(job["seed"])
+    logic = job["logic"]
+    g = G.Gen(rng, logic, box=True, nbool=1)
+    tb = g.tb
+    x, y, z = g.nums[:3]
+    def c(v): return tb.num(v, INT)
+    atoms = []
+    vals = []
+    for _ in range(job.get("n_atoms", 5)):
+        k = rng.random()
+        v, w = rng.sample([x, y, z], 2)
+        if g.dl:
+            d = tb.app("-", [v, w])
+            a = tb.app(rng.choice(["<=", "<", ">=", ">", "="]), [d, c(rng.randint(-4, 4))])
+            atoms.append(tb.app("not", [a]) if rng.random() < 0.5 else a)
+        elif k < 0.35:
+            n = rng.choice([2, 3, -2, -3, 4, 5, -1, 1])
+            t = tb.app(rng.choice(["div", "mod"]), [v, c(n)])
+            vals.append(t)
+            atoms.append(tb.app(rng.choice(["=", "<=", ">=", "<", ">"]), [t, rng.choice([w, c(rng.randint(-3, 3))])]))
+        elif k < 0.6:
+            a = rng.choice([2, 3, -2, 4, -3])
+            atoms.append(tb.app(rng.choice(["<", ">", "<=", ">="]), [tb.app("*", [c(a), v]), c(rng.randint(-7, 7))]))
+        elif k < 0.8:
+            a, b = rng.choice([2, 3, 4, 6]), rng.choice([2, 4, 6, -2, 3])
+            atoms.append(tb.app(rng.choice(["=", "<=", "<"]), [tb.app("+", [tb.app("*", [c(a), v]), tb.app("*", [c(b), w])]), c(rng.randint(-5, 5))]))
+        else:
+            atoms.append(tb.app(rng.choice(["<", ">"]), [v, w]))
+    if not g.dl:
+        # constant folding of div / mod
+        for _ in range(3):
+            t = tb.app(rng.choice(["div", "mod"]), [c(rng.randint(-9, 9)), c(rng.choice([1, 2, 3, 4, 7, -1, -2, -3, -5]))])
+            vals.append(t)
+            atoms.append(tb.app("=", [rng.choice([x, y, z]), t]) if rng.random() < 0.4 else tb.app(rng.choice(["<=", ">="]), [t, c(rng.randint(-3, 3))]))
+    cmds = [{"c": "assert", "t": b, "nm": "", "inner": []} for b in g.box_asserts()]
+    q = [{"c": "get-model"}] + ([{"c": "get-value", "ts": vals[:5]}] if vals else [])
+    for i in range(job.get("n_assert", 4)):
+        f = rng.choice(atoms) if rng.random() < 0.6 else g.formula(atoms, 1)
+        if rng.random() < 0.25:
+            cmds.append({"c": "push", "n": 1})
+        cmds.append({"c": "assert", "t": f, "nm": "", "inner": []})
+        if rng.random() < 0.5:
+            cmds.append({"c": "check-sat"}); cmds += [dict(e) for e in q]
+    cmds.append({"c": "check-sat"}); cmds += [dict(e) for e in q]
+    fam = C.Family(g)
+    fam.add_run("s", "c0", "main", G.preamble(g, _opts("models")) + cmds)
+    return _result(fam, job)
+
+BUILDERS["rounding"] = b_rounding
+
+# ------------------------------------------------------------------ printed SMT-LIB reads back (C17)
+ODD_NAMES = ["a b", "x;y", "p(q", "r)s", "u\"v", "0abc", "let", "assert", "x!0", "y!1", "a@", "a.b", "A~", "1", "<=x", "true!", "Bool2",
+             "par", "as", "exists", "ite!", "and$"]
+def b_printing(job):
+    """models, values, cores, interpolants over symbols that need quoting or clash with reserved words / generated
+    parameter names; then the printed model is read back by a fresh solver together with the assertions"""
+    rng = random.Random(job["seed"])
+    g = G.Gen(rng, job["logic"], nbool=1)
+    tb = g.tb
+    names = rng.sample(ODD_NAMES, 4)
+    extra_b = []
+    for nm in names[:2]:
+        g._declare(nm, (), BOOL); v = tb.var(nm, BOOL); g.bools.append(v); extra_b.append(v)
+    if g.num:
+        g._declare(names[2], (), g.num); g.nums.append(tb.var(names[2], g.num))
+    if g.uf:
+        g._declare(names[3], ("U",), "U")
+        g.funs[names[3]] = (("U",), "U")
+    mode = job.get("mode", rng.choice(["models", "models", "cores", "itp"]))
+    if g.arr: mode = "cores"
+    if mode == "itp" and (g.dl or g.arr): mode = "cores"
+    if mode == "models":
+        ts = list(extra_b)
+        if g.num: ts.append(g.nums[-1]); ts.append(g.num_term())
+        if g.uf: ts.append(tb.uf(names[3], [g.us[0]], "U"))
+        q = [{"c": "get-model"}, {"c": "get-value", "ts": ts}]
+        body = G.random_history(g, rng, n_assert=4, queries=q, fdepth=1, max_depth=1)
+        opts = _opts("models")
+    elif mode == "cores":
+        body = unsat_biased_body(g, rng, queries=[{"c": "get-unsat-core"}], histories=False, n_atoms=4)
+        opts = _opts("cores") + [(":print-cores-full", "true")]
+    else:
+        body = unsat_biased_body(g, rng, p_named=1.0, nested=False, histories=False, n_atoms=4)
+        body = add_itp_queries(body, rng)
+        opts = _opts("itp")
+    # make sure the odd symbols occur in assertions
+    body = [{"c": "assert", "t": tb.app("or", [extra_b[0], tb.app("not", [extra_b[1]])]), "nm": "", "inner": []}] + body
+    cmds = G.preamble(g, opts) + body
+    fam = C.Family(g)
+    run = fam.add_run("s", "c0", "main", cmds)
+    # read-back: declarations of sorts, the printed model as define-funs, the assertions, check-sat
+    if mode == "models":
+        segs, done, _ = C.split_output(run["res"]["out"], len(cmds))
+        mir = C.Mirror()
+        k = 0
+        for i, cmd in enumerate(cmds):
+            if i >= done: break
+            r = "error" if "(error" in segs[i] else (segs[i].split("\n")[0].strip() if cmd["c"] == "check-sat" else "ok")
+            if cmd["c"] == "get-model" and r != "error" and mir.mode == "sat" and k < 2:
+                k += 1
+                from smtlib import read_all, parse_model, Signature, sexpr_str, SmtError
+                try:
+                    sx = read_all(segs[i])
+                    sig = Signature(); sig.sorts = set(g.sig.sorts); sig.funs = dict(g.sig.funs)
+                    m = parse_model(sx[0], tb, sig)
+                    rb = [{"c": "set-logic", "logic": G.logic_name(g.logic)}] + [dict(d) for d in g.decls if d["c"] == "declare-sort"]
+                    ok = True
+                    # abstract values of uninterpreted sorts are model-only syntax: give them to the reading solver as
+                    # pairwise distinct constants, so that (as @k U) reads back
+                    uvs = {}
+                    for d in m:
+                        for j in tb.subterms(d["b"]):
+                            rj = tb.rec(j)
+                            if rj["k"] == "u":
+                                uvs.setdefault(rj["s"], set()).add(rj["nm"])
+                    for srt, nms in sorted(uvs.items()):
+                        for nm in sorted(nms):
+                            rb.append({"c": "raw", "text": "(declare-fun %s () %s)" % (nm, srt), "must": "accept"})
+                        if len(nms) > 1:
+                            rb.append({"c": "raw", "text": "(assert (distinct %s))" % " ".join("(as %s %s)" % (nm, srt) for nm in sorted(nms)), "must": "accept"})
+                    for entry, d in zip(sx[0], m):
+                        # the text exactly as the solver printed it; the parsed definition for the specification
+                        params = [(p, tb.sort(tb.var(p, "?")) if False else None) for p in d["p"]]
+                        psorts = [sexpr_str(pp[1]) for pp in entry[2]]
+                        rb.append({"c": "define", "nm": d["nm"], "params": list(zip(d["p"], psorts)), "ret": sexpr_str(entry[3]), "b": d["b"],
+                                   "text": sexpr_str(entry), "must": "accept"})
+                    for dn, (dparams, db, _) in mir.defs.items():
+                        rb.append({"c": "define", "nm": dn, "params": dparams, "ret": tb.sort(db), "b": db, "must": "accept"})
+                    for t, _ in mir.entries():
+                        rb.append({"c": "assert", "t": t, "nm": "", "inner": [], "must": "accept"})
+                    rb.append({"c": "check-sat", "empty_hint": True})
+                    fam.add_run("rb%d" % k, "c0", "readback", rb, text=render_with_text(rb, tb))
+                except SmtError:
+                    pass
+            mir.step(cmd, r)
+    return _result(fam, job)
+
+def render_with_text(cmds, tb):
+    out = []
+    for k, cmd in enumerate(cmds, 1):
+        out.append(cmd["text"] if cmd.get("text") and cmd["c"] != "raw" else G.render_cmd(cmd, tb))
+        out.append('(echo "@@%d")' % k)
+    return "\n".join(out) + "\n"
+
+BUILDERS["printing"] = b_printing
